@@ -59,6 +59,7 @@ type accAn struct {
 	fset    *token.FileSet
 	depth   int
 	dynamic map[string]bool
+	retMemo map[*ssa.Function]string
 }
 
 func isLib(path string) bool { return strings.HasPrefix(path, mod+"/pkg/") }
@@ -330,6 +331,14 @@ func (an *accAn) cellOf(v ssa.Value, c *accCtx, depth int) string {
 		}
 	case *ssa.Extract:
 		return an.cellOf(x.Tuple, c, depth+1)
+	case *ssa.Call:
+		// a library function that hands out a reference to package-level state (accessor / singleton getter)
+		if sc := x.Common().StaticCallee(); sc != nil && isRefLike(x.Type()) {
+			if _, ok := an.libPkgs[sc.Pkg]; ok {
+				return an.returnedCell(sc, depth)
+			}
+		}
+		return ""
 	case *ssa.ChangeType:
 		return an.cellOf(x.X, c, depth+1)
 	case *ssa.Convert:
@@ -351,6 +360,47 @@ func (an *accAn) cellOf(v ssa.Value, c *accCtx, depth int) string {
 		}
 	}
 	return ""
+}
+
+func isRefLike(t types.Type) bool {
+	if tup, ok := t.(*types.Tuple); ok {
+		for i := 0; i < tup.Len(); i++ {
+			if isRefType(tup.At(i).Type()) {
+				return true
+			}
+		}
+		return false
+	}
+	return isRefType(t)
+}
+
+// returnedCell: the (first) cell a function returns a reference into, looking only at its own body with no bindings
+func (an *accAn) returnedCell(f *ssa.Function, depth int) string {
+	if an.retMemo == nil {
+		an.retMemo = map[*ssa.Function]string{}
+	}
+	if v, ok := an.retMemo[f]; ok {
+		return v
+	}
+	an.retMemo[f] = "" // recursion guard
+	res := ""
+	empty := &accCtx{held: map[string]string{}, after: map[string]bool{}, bind: map[ssa.Value]string{}}
+	for _, b := range f.Blocks {
+		for _, ins := range b.Instrs {
+			if r, ok := ins.(*ssa.Return); ok && res == "" {
+				for _, v := range r.Results {
+					if isRefType(v.Type()) {
+						if cell := an.cellOf(v, empty, depth+1); cell != "" {
+							res = cell
+							break
+						}
+					}
+				}
+			}
+		}
+	}
+	an.retMemo[f] = res
+	return res
 }
 
 func pkgOfCell(cell string) string {
